@@ -141,6 +141,16 @@ CHECKS['C11'] = (
     'only the placements the statement names (top level, inside named environments)',
     '3/C11')
 
+CHECKS['C12'] = (
+    'constructive math-region generator (kinds x bodies x neighbours x contexts), exhaustive pair/sizing/operator sweeps + Hypothesis',
+    'documents with 1..3 math regions are built from known pieces, so the expected list of regions (delimiters or name, '
+    'exact body source) and the commands inside them are known by construction; the tree must show exactly those math '
+    'nodes in order with bodies that concatenate to the enclosed source, round-trip, and find every command. All ordered '
+    'pairs of the 21 region kinds adjacent, every sizing prefix x delimiter and every zero-argument operator x bracket '
+    'continuation are enumerated in 8 contexts; random combinations beyond. Exploration.',
+    '$..$ directly followed by $ is outside the quantifier and never generated (counted)',
+    '3/C12')
+
 PENDING = {}
 
 
